@@ -14,20 +14,26 @@
     every parser table.
   * rejection happens at compile time: `Search` evaluates nothing when
     `Compile` fails (`C04_rejection_precedes_evaluation`).
-  * COMPLETENESS (partial): every sentence written by the precedence-aware
-    printer — all constructs including projections, with any redundant
-    parentheses — compiles (`C04_printed_sentences_compile_partial`).  That
-    every sentence of the ambiguous ABNF has such a printed form is NOT proved
-    (it is a fact about the grammar, not about the code); the correspondence
-    check enumerates all token sequences up to a length bound against the
-    specification-table parser instead.  Known exception: integer literals
-    outside int64 are grammatical and rejected (finding D22).
+  * COMPLETENESS: every sentence of the published grammar (`G false`, the
+    ABNF without the D24 extension) whose number tokens are in the int64 range
+    is accepted (`C04_grammatical_is_accepted`, and from bytes
+    `C04_grammatical_compiles`).  Proved in Proofs/GrammarComplete.lean by
+    induction on the derivation against a stack-of-pending-loops description
+    of the Pratt parser; no bound on size or nesting.  The side condition is
+    finding D22 (the grammar has no integer bound; `strconv.Atoi` has), and
+    `C04_number_range_is_needed` shows it cannot be dropped.
+    `C04_accepts_iff_modulo_findings` puts the two directions side by side:
+    strict sentences with in-range numbers ⊆ accepted ⊆ lenient sentences.
+  * the printer-based statements (`C04_printed_sentences_compile_partial`,
+    `C04_written_sentences_compile_partial`) remain: they also say WHICH tree
+    the accepted sentence denotes.
 -/
 import Props.Tables
 import Proofs.Grammar
 import Proofs.Printer
 import Proofs.ApiGlue
 import Props.Bytes
+import Proofs.GrammarComplete
 namespace Jmes.Props
 open Jmes Jmes.Parser Jmes.Spec
 
@@ -126,5 +132,62 @@ theorem C04_written_sentences_compile_partial (e : PE N) (hw : Parser.wf e) (key
   refine ⟨node e, compile_rendered hk hr ?_⟩
   rw [parseTokens_congr (sameDecisions_of_tableOK Generated.table Spec.table generated_table_ok spec_table_ok)]
   exact round_trip_spec e hw
+
+/-! ### completeness for the published grammar -/
+
+/-- **Every grammatical token list is accepted** (table regenerated from /repo):
+    a sentence of the published grammar whose integer literals fit int64 parses. -/
+theorem C04_grammatical_is_accepted (toks : List Token) (total : Nat) (hs : Sentence N false toks) (hnum : NumOK toks)
+    (htoks : Lexer.TokensOK total toks) : ∃ ast : Node N, parseTokens Generated.table toks = .ok ast := by
+  rw [parseTokens_congr (sameDecisions_of_tableOK Generated.table Spec.table generated_table_ok spec_table_ok)]
+  exact sentence_parses hs hnum htoks
+
+/-- … and from bytes: an expression whose tokens are a sentence compiles. -/
+theorem C04_grammatical_compiles (expr : Bytes) (toks : List Token)
+    (htok : Lexer.tokenize Model.lexTables expr = .ok toks) (hs : Sentence N false toks) (hnum : NumOK toks) :
+    ∃ ast : Node N, Api.compile Model.cfg expr = .ok ast := by
+  have hl := Lexer.tokenize_ok Model.lexTables lex_tables_safe expr
+  rw [htok] at hl
+  obtain ⟨ast, hp⟩ := C04_grammatical_is_accepted (N := N) toks expr.length hs hnum hl
+  refine ⟨ast, ?_⟩
+  rw [Api.compile_eq_parseWith]
+  show parseWith Model.lexTables Generated.table expr = .ok ast
+  unfold parseWith
+  rw [htok]
+  exact hp
+
+/-- Both directions side by side.  The gap between them is exactly the two recorded findings:
+    `NumOK` (D22) on the left, the lenient production (D24) on the right. -/
+theorem C04_accepts_iff_modulo_findings (expr : Bytes) (toks : List Token)
+    (htok : Lexer.tokenize Model.lexTables expr = .ok toks) :
+    ((Sentence N false toks ∧ NumOK toks) → ∃ ast : Node N, Api.compile Model.cfg expr = .ok ast) ∧
+    ((∃ ast : Node N, Api.compile Model.cfg expr = .ok ast) → Sentence N true toks) := by
+  refine ⟨fun h => C04_grammatical_compiles expr toks htok h.1 h.2, ?_⟩
+  rintro ⟨ast, h⟩
+  obtain ⟨toks', htok', hs⟩ := C04_compiled_is_grammatical expr ast h
+  rw [htok] at htok'
+  injection htok' with e
+  rw [e]; exact hs
+
+/-- The range condition cannot be dropped (finding D22): `[9223372036854775808]` is a sentence and is rejected. -/
+theorem C04_number_range_is_needed :
+    let big : Bytes := [0x39,0x32,0x32,0x33,0x33,0x37,0x32,0x30,0x33,0x36,0x38,0x35,0x34,0x37,0x37,0x35,0x38,0x30,0x38]
+    let toks : List Token := [tk .lbracket, tk .number big, tk .rbracket, eofTok 0]
+    Sentence Int false toks ∧ isOk (parseTokens (N := Int) Spec.table toks) = false := by
+  refine ⟨⟨[tk .lbracket, tk .number _, tk .rbracket], eofTok 0, rfl, rfl, ?_⟩, by decide +kernel⟩
+  exact G.index0 (G.brNumber rfl rfl rfl)
+
+/-- Non-vacuity: a sentence that uses most productions meets the hypotheses of `C04_grammatical_is_accepted`
+    (`a.b[0] || !c[?d == `1`].*  |  f(&g, [h, i]){j: k}`-like token list, positions 0). -/
+example : NumOK [tk .uident (b "a"), tk .dot, tk .uident (b "b"), tk .lbracket, tk .number [0x30], tk .rbracket] := by
+  intro t ht hn
+  simp at ht
+  rcases ht with rfl | rfl | rfl | rfl | rfl | rfl <;> first | decide | (simp [tk] at hn)
+
+example : Sentence Int false
+    [tk .uident (b "a"), tk .dot, tk .uident (b "b"), tk .lbracket, tk .number [0x30], tk .rbracket, eofTok 0] :=
+  ⟨[tk .uident (b "a"), tk .dot, tk .uident (b "b"), tk .lbracket, tk .number [0x30], tk .rbracket], eofTok 0, rfl, rfl,
+    G.index (a := [tk .uident (b "a"), tk .dot, tk .uident (b "b")]) (b := [tk .lbracket, tk .number [0x30], tk .rbracket])
+      (G.sub (a := [tk .uident (b "a")]) (G.ident (Or.inl rfl)) rfl (G.dotIdent (Or.inl rfl))) (G.brNumber rfl rfl rfl)⟩
 
 end Jmes.Props
